@@ -9,6 +9,8 @@
      and the real pass of orc_x86_compile (or is in the reasoned allow-table)
   D4 no emitted immediate is derived from a pointer value
   D5 the compile driver only reads the program (stores limited to the result fields)
+  D6 the history carrier D1 tolerates (the code-chunk list) stays a tiling across split/merge (shared with C09-D1), so
+     placement history cannot make a later compile overwrite the bytes of a live program
 Byte-for-byte equality of two runs as such is NOT decided.
 """
 from facts import ASSIGN_OPS, AnalysisBroken, access_path, strip_casts, unparse, root_var
@@ -242,6 +244,12 @@ def run(ctx):
             ok = c.name in ("orc_program_get_error", "orc_program_set_error")
             rep.check(ok, "D5-PROGRAM-READ-ONLY", where(cp), "passes-program:%s" % c.name, "program handed only to the error accessors",
                       "the compile driver passes the program to %s, which may modify it" % c.name, line=c.line)
+
+    # ---- D6: placement history cannot overwrite a live program's bytes ------------------------
+    # D1 lets allocator state flow into the placement fields only; that is harmless only while the allocator's chunk list
+    # stays a tiling (split/merge identities, shared with C09-D1): a stale link lets a later free merge over a live chunk.
+    import importlib
+    importlib.import_module("rules.c09").d1(db, rep, "D6-ALLOCATOR-TILING", "D6-ALLOCATOR-TILING")
 
 
 def _once_guarded(f):
